@@ -402,6 +402,10 @@ def native_conv(name, conc, notes):
         raw = struct.unpack_from("q", inst.amap, 8)[0]
         if raw != k:
             bad.append(("write of an x variable", d, raw, k))
+        struct.pack_into("q", inst.amap, 8, k)
+        back = desc.__get__(inst, None)
+        if back != d:
+            bad.append(("read of an x variable holding the raw integer", k, back, d))
     return {"inputs": {"decimals tried": "0.29 0.57 0.00001 0.00115 0.99999 ... and negative ones"},
             "reproduced": bool(bad),
             "detail": f"real Constant(ebpf, d) / ArrayGlobalVarDesc.__set__: (what, decimal, scaled integer, exact) "
